@@ -46,8 +46,9 @@ void harness(void)
 	const bool covered = mjd >= (long long)MT(cal)[0] && mjd < (long long)MT(cal)[nm - 1U];
 	if (!covered) {
 		CHECK(echs_nul_instant_p(h), "date outside the table's coverage is rejected");
-		/* (no witness point here: the year slices in the middle of the table have no such date) */
-		return;
+		/* (one witness point for both outcomes: year slices in the middle of a table have no
+		 * uncovered date, slices beyond its end have no covered one) */
+		goto out;
 	}
 #endif
 	CHECK(!echs_nul_instant_p(h), "date inside the coverage converts");
@@ -90,5 +91,8 @@ void harness(void)
 			CHECK(same_month || next_month, "consecutive days map to consecutive days, month length = distance of month starts");
 		}
 	}
+#if SCALE >= 9
+out:
+#endif
 	WITNESS_POINT();
 }
